@@ -5,124 +5,6 @@ namespace TxVerif
 theorem touchesB_iff (op : TOp) (q : Nat) : touchesB op q = true ↔ touches op q := by
   cases op <;> simp [touchesB, touches]
 
-/-! ### images -/
-
-/-- what the protocol guarantees about a (durable or crash) image: slot `a` holds the committed
-    header `(tx, st)`, the other slot is invalid, older, or holds the header `(tx + 1, s)` of the
-    attempt `g = some s`; the committed state and the attempted state are complete -/
-structure ImgOk (reachOf : Nat → List (Nat × Hash)) (a tx st : Nat) (g : Option Nat) (d : Img) : Prop where
-  active : d.slots a = some (tx, st)
-  other : ∀ t s, d.slots (1 - a) = some (t, s) → t < tx ∨ (t = tx + 1 ∧ g = some s)
-  intact : ∀ p h, (p, h) ∈ reachOf st → d.pages p = some h
-  intactG : ∀ s, g = some s → ∀ p h, (p, h) ∈ reachOf s → d.pages p = some h
-
-/-- a pending operation that keeps `ImgOk`: a page operation clear of the committed state while no
-    attempt is around, or a header write into the other slot carrying an older header (restore) or
-    the header of the attempt -/
-def POk (reachOf : Nat → List (Nat × Hash)) (a tx st : Nat) (g : Option Nat) (op : TOp) : Prop :=
-  (g = none ∧ ClearOf (reachOf st) op) ∨
-  ∃ t s, op = .hdr (1 - a) t s ∧ (t < tx ∨ (t = tx + 1 ∧ g = some s))
-
-theorem imgOk_apply {reachOf : Nat → List (Nat × Hash)} {a tx st : Nat} {g : Option Nat} {d : Img} {op : TOp}
-    (ha : a ≤ 1) (h : ImgOk reachOf a tx st g d) (hop : POk reachOf a tx st g op) :
-    ImgOk reachOf a tx st g (applyOp d op) ∧ ImgOk reachOf a tx st g (tearOp d op) := by
-  rcases hop with ⟨hg, hcl⟩ | ⟨t, s, rfl, hts⟩
-  · have hnh := fun k => clearOf_not_hdr _ op hcl k
-    have hnt := fun p hh hm => clearOf_not_touches _ op hcl p hh hm
-    constructor
-    · refine ⟨?_, ?_, ?_, ?_⟩
-      · rw [applyOp_slots _ _ _ (hnh _)]; exact h.active
-      · intro t s; rw [applyOp_slots _ _ _ (hnh _)]; exact h.other t s
-      · intro p hh hm; rw [applyOp_pages _ _ _ (hnt p hh hm)]; exact h.intact p hh hm
-      · intro s hs; rw [hg] at hs; cases hs
-    · refine ⟨?_, ?_, ?_, ?_⟩
-      · rw [tearOp_slots _ _ _ (hnh _)]; exact h.active
-      · intro t s; rw [tearOp_slots _ _ _ (hnh _)]; exact h.other t s
-      · intro p hh hm; rw [tearOp_pages _ _ _ (hnt p hh hm)]; exact h.intact p hh hm
-      · intro s hs; rw [hg] at hs; cases hs
-  · have hne : ¬ (a = 1 - a) := by omega
-    constructor
-    · refine ⟨?_, ?_, h.intact, h.intactG⟩
-      · simp only [applyOp, hne, if_false]; exact h.active
-      · intro t' s'
-        simp only [applyOp, if_true, Option.some.injEq, Prod.mk.injEq]
-        intro ⟨e1, e2⟩; subst e1 e2; exact hts
-    · refine ⟨?_, ?_, h.intact, h.intactG⟩
-      · simp only [tearOp, hne, if_false]; exact h.active
-      · intro t' s'; simp [tearOp]
-
-theorem imgOk_crash {reachOf : Nat → List (Nat × Hash)} {a tx st : Nat} {g : Option Nat} (ha : a ≤ 1)
-    {d : Img} {ops : List TOp} {i : Img} (hc : CrashImg d ops i) (h : ImgOk reachOf a tx st g d)
-    (hops : ∀ op ∈ ops, POk reachOf a tx st g op) : ImgOk reachOf a tx st g i := by
-  induction hc with
-  | nil d => exact h
-  | keep _ ih =>
-    exact ih (imgOk_apply ha h (hops _ List.mem_cons_self)).1 (fun o ho => hops o (List.mem_cons_of_mem _ ho))
-  | drop _ ih => exact ih h (fun o ho => hops o (List.mem_cons_of_mem _ ho))
-  | tear _ ih =>
-    exact ih (imgOk_apply ha h (hops _ List.mem_cons_self)).2 (fun o ho => hops o (List.mem_cons_of_mem _ ho))
-
-/-- a completed sync is one of the crash outcomes (everything kept) -/
-theorem crashImg_foldl (ops : List TOp) : ∀ d : Img, CrashImg d ops (ops.foldl applyOp d) := by
-  induction ops with
-  | nil => intro d; exact .nil d
-  | cons op ops ih => intro d; exact .keep (ih _)
-
-/-- nothing kept is one of the crash outcomes too -/
-theorem crashImg_none (ops : List TOp) : ∀ d : Img, CrashImg d ops d := by
-  induction ops with
-  | nil => intro d; exact .nil d
-  | cons op ops ih => intro d; exact .drop (ih _)
-
-/-- recovery on an `ImgOk` image: the committed state, or the attempt -/
-theorem recover_imgOk {reachOf : Nat → List (Nat × Hash)} {a tx st : Nat} {g : Option Nat} (ha : a ≤ 1) {i : Img}
-    (h : ImgOk reachOf a tx st g i) :
-    ∃ r, recover i = some r ∧ (r = st ∨ g = some r) ∧ ∀ p hh, (p, hh) ∈ reachOf r → i.pages p = some hh := by
-  cases ho : i.slots (1 - a) with
-  | none =>
-    exact ⟨st, recover_active i a ha tx st h.active (by intro t s e; rw [ho] at e; cases e), Or.inl rfl, h.intact⟩
-  | some r =>
-    obtain ⟨t, s⟩ := r
-    rcases h.other t s ho with hlt | ⟨ht, hg⟩
-    · refine ⟨st, recover_active i a ha tx st h.active ?_, Or.inl rfl, h.intact⟩
-      intro t' s' e; rw [ho] at e; cases e; exact hlt
-    · refine ⟨s, recover_active i (1 - a) (by omega) t s ho ?_, Or.inr hg, h.intactG s hg⟩
-      have : 1 - (1 - a) = a := by omega
-      intro t' s' e; rw [this, h.active] at e; cases e; omega
-
-/-- an `ImgOk` image is a safe starting point (reopen after a crash or after closing the file) -/
-theorem imgOk_restart {reachOf : Nat → List (Nat × Hash)} {a tx st : Nat} {g : Option Nat} (ha : a ≤ 1) {i : Img}
-    (h : ImgOk reachOf a tx st g i) :
-    ∃ a' tx' st', recover i = some st' ∧ (st' = st ∨ g = some st') ∧
-      Safe reachOf { durable := i, pending := [], aSlot := a', aTx := tx', aSt := st', inflight := none } := by
-  have hold : (∀ t s, i.slots (1 - a) = some (t, s) → t < tx) →
-      ∃ a' tx' st', recover i = some st' ∧ (st' = st ∨ g = some st') ∧
-        Safe reachOf { durable := i, pending := [], aSlot := a', aTx := tx', aSt := st', inflight := none } :=
-    fun ho => ⟨a, tx, st, recover_active i a ha tx st h.active ho, Or.inl rfl,
-      ⟨ha, h.active, ho, h.intact, (fun _ _ ho => by cases ho), nofun⟩⟩
-  cases ho : i.slots (1 - a) with
-  | none => exact hold (by intro t s e; rw [ho] at e; cases e)
-  | some r =>
-    obtain ⟨t, s⟩ := r
-    rcases h.other t s ho with hlt | ⟨ht, hg⟩
-    · exact hold (by intro t' s' e; rw [ho] at e; cases e; exact hlt)
-    · have hsl : 1 - (1 - a) = a := by omega
-      have hoth : ∀ t' s', i.slots (1 - (1 - a)) = some (t', s') → t' < t := by
-        intro t' s' e; rw [hsl, h.active] at e; cases e; omega
-      exact ⟨1 - a, t, s, recover_active i (1 - a) (by omega) t s ho hoth, Or.inr hg,
-        ⟨by show 1 - a ≤ 1; omega, ho, hoth, h.intactG s hg, (fun _ _ ho => by cases ho), nofun⟩⟩
-
-/-- the two valid headers of an `ImgOk` image never carry the same transaction id -/
-theorem imgOk_no_tie {reachOf : Nat → List (Nat × Hash)} {a tx st : Nat} {g : Option Nat} (ha : a ≤ 1) {i : Img}
-    (h : ImgOk reachOf a tx st g i) (t0 s0 t1 s1 : Nat) (h0 : i.slots 0 = some (t0, s0))
-    (h1 : i.slots 1 = some (t1, s1)) : t0 ≠ t1 := by
-  have : a = 0 ∨ a = 1 := by omega
-  rcases this with rfl | rfl
-  · have := h.active; rw [h0] at this; cases this
-    rcases h.other t1 s1 h1 with h | ⟨h, _⟩ <;> omega
-  · have := h.active; rw [h1] at this; cases this
-    rcases h.other t0 s0 h0 with h | ⟨h, _⟩ <;> omega
-
 /-! ### what a completed / failed sync does to the knowledge about pages -/
 
 theorem applyOp_pages_congr (d m : Img) (op : TOp) (q : Nat) (h : d.pages q = m.pages q ∨ touches op q) :
@@ -169,6 +51,46 @@ theorem foldl_pages_congr (ops : List TOp) (q : Nat) : ∀ (d m : Img),
         · exact absurd hto ht
         · exact ih _ _ (Or.inr ⟨o, ho, hto⟩)
 
+theorem applyOp_slots_congr (d m : Img) (op : TOp) (k : Nat) (h : d.slots k = m.slots k ∨ isHdrOn op k) :
+    (applyOp d op).slots k = (applyOp m op).slots k := by
+  cases op with
+  | hdr s t st =>
+    simp only [applyOp]
+    by_cases e : k = s
+    · simp [e]
+    · simp only [e, if_false]; rcases h with h | h
+      · exact h
+      · simp only [isHdrOn] at h; omega
+  | write _ _ => rcases h with h | h
+                 · exact h
+                 · simp [isHdrOn] at h
+  | trunc _ => rcases h with h | h
+               · exact h
+               · simp [isHdrOn] at h
+  | sync => rcases h with h | h
+            · exact h
+            · simp [isHdrOn] at h
+
+theorem foldl_slots_congr (ops : List TOp) (k : Nat) : ∀ (d m : Img),
+    (d.slots k = m.slots k ∨ ∃ op ∈ ops, isHdrOn op k) →
+    (ops.foldl applyOp d).slots k = (ops.foldl applyOp m).slots k := by
+  induction ops with
+  | nil =>
+    intro d m h
+    rcases h with h | ⟨_, ho, _⟩
+    · exact h
+    · simp at ho
+  | cons op ops ih =>
+    intro d m h
+    simp only [List.foldl_cons]
+    by_cases ht : isHdrOn op k
+    · exact ih _ _ (Or.inl (applyOp_slots_congr d m op k (Or.inr ht)))
+    · rcases h with h | ⟨o, ho, hto⟩
+      · exact ih _ _ (Or.inl (applyOp_slots_congr d m op k (Or.inl h)))
+      · rcases List.mem_cons.mp ho with rfl | ho
+        · exact absurd hto ht
+        · exact ih _ _ (Or.inr ⟨o, ho, hto⟩)
+
 theorem any_touchesB (ops : List TOp) (q : Nat) : ops.any (touchesB · q) = true ↔ ∃ op ∈ ops, touches op q := by
   simp only [List.any_eq_true, touchesB_iff]
 
@@ -186,7 +108,8 @@ structure FSafe (reachOf : Nat → List (Nat × Hash)) (c : FCfg) (d : Img) : Pr
   mprev : ∀ t s, c.base.durable.slots (1 - c.base.aSlot) = some (t, s) → t < c.base.aTx
   quiet : c.phase = .normal → c.base.inflight = none → ∀ op ∈ c.base.pending, ClearOf (reachOf c.base.aSt) op
   inflP : c.phase = .normal → ∀ st, c.base.inflight = some st →
-    c.base.pending = [.hdr (1 - c.base.aSlot) (c.base.aTx + 1) st]
+    ∃ old, c.base.pending = old ++ [.hdr (1 - c.base.aSlot) (c.base.aTx + 1) st] ∧
+      ∀ op ∈ old, ClearOf (reachOf c.base.aSt) op ∧ ClearOf (reachOf st) op
   failedP : ∀ st', c.phase = .failed st' → c.base.pending = []
   restP : ∀ st', c.phase = .restoring st' → ∃ t s, c.base.pending = [.hdr (1 - c.base.aSlot) t s] ∧
     c.base.durable.slots (1 - c.base.aSlot) = some (t, s)
@@ -211,15 +134,20 @@ theorem FSafe.pok {reachOf : Nat → List (Nat × Hash)} {c : FCfg} {d : Img} (h
     cases hi : b.inflight with
     | none =>
       intro op hop
-      exact Or.inl ⟨by simp [FCfg.pendingSt, hi], hs.quiet rfl hi op hop⟩
+      exact Or.inl ⟨hs.quiet rfl hi op hop, by intro s e; simp [FCfg.pendingSt, hi] at e⟩
     | some st =>
-      have hp := hs.inflP rfl st hi
+      obtain ⟨old, hp, hold⟩ := hs.inflP rfl st hi
       intro op hop
-      simp only at hp
+      simp only at hp hold
       rw [hp] at hop
-      simp only [List.mem_singleton] at hop
-      subst hop
-      exact Or.inr ⟨_, _, rfl, Or.inr ⟨rfl, by simp [FCfg.pendingSt, hi]⟩⟩
+      rcases List.mem_append.mp hop with hop | hop
+      · refine Or.inl ⟨(hold op hop).1, ?_⟩
+        intro s e
+        simp only [FCfg.pendingSt, hi, Option.some.injEq] at e
+        subst e; exact (hold op hop).2
+      · simp only [List.mem_singleton] at hop
+        subst hop
+        exact Or.inr ⟨_, _, rfl, Or.inr ⟨rfl, by simp [FCfg.pendingSt, hi]⟩⟩
   | failed st' =>
     have hp := hs.failedP st' rfl
     intro op hop
@@ -356,8 +284,8 @@ theorem fsafe_step (reachOf : Nat → List (Nat × Hash)) (c c' : FCfg) (d d' : 
           split at hb
           · rename_i hc
             simp only [Option.some.injEq] at hb; subst hb
-            simp only [Bool.and_eq_true, Option.isNone_iff_eq_none, List.isEmpty_iff, beq_iff_eq] at hc
-            obtain ⟨⟨⟨⟨hi, _⟩, rfl⟩, rfl⟩, hint⟩ := hc
+            simp only [Bool.and_eq_true, Option.isNone_iff_eq_none, List.all_eq_true, beq_iff_eq] at hc
+            obtain ⟨⟨⟨⟨hi, hall⟩, rfl⟩, rfl⟩, hint⟩ := hc
             simp only [List.all_eq_true, Bool.not_eq_true'] at hunk
             refine ⟨hs.slotLe, hs.img, ?_, hs.agree, hs.slotsAgree, hs.mprev, ?_, ?_, nofun, nofun⟩
             · intro st'' hst p hh hm
@@ -367,7 +295,8 @@ theorem fsafe_step (reachOf : Nat → List (Nat × Hash)) (c c' : FCfg) (d d' : 
               exact intactB_spec reachOf _ _ hint p hh hm
             · intro _ hn; cases hn
             · intro _ st'' hst
-              simp only [Option.some.injEq] at hst; subst hst; rfl
+              simp only [Option.some.injEq] at hst; subst hst
+              exact ⟨b.pending, rfl, fun o ho => ⟨hs.quiet rfl hi o ho, pendClearB_spec _ o (hall o ho)⟩⟩
           · cases hb
         · cases h
       | failed st' =>
@@ -400,41 +329,29 @@ theorem fsafe_step (reachOf : Nat → List (Nat × Hash)) (c c' : FCfg) (d d' : 
           · intro _ st hst; cases hst
         | some st =>
           simp only [hi, Option.map_some, Option.some.injEq] at h; subst h
-          have hp : b.pending = _ := hs.inflP rfl st hi
+          obtain ⟨old, hp, _⟩ := hs.inflP rfl st hi
+          simp only at hp
+          have hok := hsyncOk _ (crashImg_foldl b.pending d)
+          simp only [FCfg.pendingSt, hi] at hok
           have hsl : 1 - (1 - b.aSlot) = b.aSlot := by have := hs.slotLe; simp only at this; omega
-          have hne : ¬ (b.aSlot = 1 - b.aSlot) := by omega
           have hagr := agree_sync u b.pending d b.durable hs.agree
-          have hact : d.slots b.aSlot = some (b.aTx, b.aSt) := hs.img.active
-          have hint := hs.intactP st (by simp [FCfg.pendingSt, hi])
           have hsa := fun k => hs.slotsAgree k (Or.inl rfl)
-          have hf : ∀ x : Img, b.pending.foldl applyOp x = applyOp x (.hdr (1 - b.aSlot) (b.aTx + 1) st) := by
-            intro x; rw [hp]; rfl
-          refine ⟨by show 1 - b.aSlot ≤ 1; omega, ⟨?_, ?_, ?_, nofun⟩, ?_, hagr, ?_, ?_, ?_, ?_, nofun, nofun⟩
-          · show (b.pending.foldl applyOp d).slots (1 - b.aSlot) = _
-            rw [hf]; simp [applyOp]
-          · intro t s
-            show (b.pending.foldl applyOp d).slots (1 - (1 - b.aSlot)) = _ → _
-            rw [hf, hsl]
-            simp only [applyOp, hne, if_false, hact, Option.some.injEq, Prod.mk.injEq]
-            intro ⟨e, _⟩; left; show t < b.aTx + 1; omega
-          · intro p hh hm
-            show (b.pending.foldl applyOp d).pages p = _
-            rw [hf]; exact hint p hh hm
+          have hslot : (b.pending.foldl applyOp d).slots (1 - b.aSlot) = some (b.aTx + 1, st) := by
+            rw [hp, List.foldl_append]; simp [applyOp]
+          have hsl' : ∀ k, (b.pending.foldl applyOp d).slots k = (b.pending.foldl applyOp b.durable).slots k :=
+            fun k => foldl_slots_congr _ k _ _ (Or.inl (hsa k))
+          have hact : (b.pending.foldl applyOp d).slots b.aSlot = some (b.aTx, b.aSt) := hok.active
+          refine ⟨by show 1 - b.aSlot ≤ 1; omega, ⟨hslot, ?_, hok.intactG st rfl, nofun⟩, ?_, hagr,
+            fun k _ => hsl' k, ?_, ?_, ?_, nofun, nofun⟩
+          · intro t s e
+            have e' : (b.pending.foldl applyOp d).slots (1 - (1 - b.aSlot)) = some (t, s) := e
+            rw [hsl, hact] at e'; cases e'
+            left; show b.aTx < b.aTx + 1; omega
           · intro st' hst; simp [FCfg.pendingSt] at hst
-          · intro k _
-            show (b.pending.foldl applyOp d).slots k = (b.pending.foldl applyOp b.durable).slots k
-            rw [hf, hf]
-            simp only [applyOp]
-            split
-            · rfl
-            · exact hsa k
-          · intro t s
-            show (b.pending.foldl applyOp b.durable).slots (1 - (1 - b.aSlot)) = _ → _
-            rw [hf, hsl]
-            have := hsa b.aSlot
-            simp only at this
-            simp only [applyOp, hne, if_false, ← this, hact, Option.some.injEq, Prod.mk.injEq]
-            intro ⟨e, _⟩; show t < b.aTx + 1; omega
+          · intro t s e
+            have e' : (b.pending.foldl applyOp b.durable).slots (1 - (1 - b.aSlot)) = some (t, s) := e
+            rw [← hsl', hsl, hact] at e'; cases e'
+            show b.aTx < b.aTx + 1; omega
           · intro _ _ o ho; cases ho
           · intro _ st' hst; cases hst
       | failed st' => simp [FCfg.step] at h
@@ -495,17 +412,21 @@ theorem fsafe_step (reachOf : Nat → List (Nat × Hash)) (c c' : FCfg) (d d' : 
         · intro _ st hst; cases hst
       | some st =>
         simp only [hi, Option.some.injEq] at h; subst h
-        have hp : b.pending = _ := hs.inflP rfl st hi
+        obtain ⟨old, hp, hold⟩ := hs.inflP rfl st hi
         simp only [FCfg.pendingSt, hi] at hok
         refine ⟨hs.slotLe, hok, ?_, agree_fail u b.pending d b.durable d' hd hs.agree, ?_, hs.mprev, nofun, nofun, ?_, nofun⟩
         · intro st'' hst; simp only [FCfg.pendingSt, Option.some.injEq] at hst; subst hst; exact hok.intactG _ rfl
         · intro k hk
           rcases hk with hk | hk
           · cases hk
-          · simp only at hd hk
+          · simp only at hd hk hp hold
             rw [hp] at hd
-            rw [crashImg_slots hd k (by intro o ho; simp only [List.mem_singleton] at ho; subst ho; simp only [isHdrOn]; omega)]
-            exact hs.slotsAgree k (Or.inl rfl)
+            rw [crashImg_slots hd k ?_]
+            · exact hs.slotsAgree k (Or.inl rfl)
+            · intro o ho
+              rcases List.mem_append.mp ho with ho | ho
+              · exact clearOf_not_hdr _ o (hold o ho).1 k
+              · simp only [List.mem_singleton] at ho; subst ho; simp only [isHdrOn]; omega
         · intro _ _; rfl
     | failed st' => simp [FCfg.step] at h
     | restoring st' =>
